@@ -157,7 +157,10 @@ theorem methodCallsFn_ok (opts : Opts) (mode : InputMode) (hm : mode ≠ .implBl
   rw [← hs.ident]
   have hc3' : ∀ x ∈ paramIdents tf.sig.inputs, ¬ unraw x = unraw tf.sig.ident := by
     simpa using hc3
-  simpa using hc3'
+  have hc4' : nodup ((paramIdents tf.sig.inputs).map unraw) = true ∨
+      nodup (((typedArgs (src.sig.userParams opts.noDepsValue)).filterMap FnArg.providedName).map unraw) = false := by
+    simpa using hc4
+  simpa using ⟨hc3', hc4'⟩
 
 theorem T_C01 (v : Variant) (attr : Toks) (item : Item) (out : Out)
     (hid : item.identsOk = true) (h : expand v attr item = .ok out) :
